@@ -1,6 +1,7 @@
 /- relation between the Python runtime's static attributes and the Spec layout -/
 import ProphyModel.Spec
 import ProphyModel.Py
+import ProphyModel.Lemmas.Align
 namespace Prophy.Py
 open Prophy
 
@@ -35,3 +36,192 @@ mutual
 end
 
 end Prophy.Py
+
+namespace Prophy
+open Prophy
+
+/-! ### alignments are positive -/
+mutual
+  theorem Spec.alignTy_pos : (t : Ty) → 0 < Spec.alignTy t
+    | .prim p => by cases p <;> simp [Spec.alignTy, Prim.size]
+    | .byte => by simp [Spec.alignTy]
+    | .enum _ _ => by simp [Spec.alignTy]
+    | .struct _ ms => by simp only [Spec.alignTy]; exact Spec.alignMs_pos ms
+    | .union _ arms => by simp only [Spec.alignTy, Spec.flagSize]; omega
+  theorem Spec.alignMs_pos : (ms : List Member) → 0 < Spec.alignMs ms
+    | [] => by simp [Spec.alignMs]
+    | .mk _ t k :: r => by
+      have := Spec.alignMs_pos r
+      simp only [Spec.alignMs]; omega
+end
+
+theorem Spec.alignMember_pos (m : Member) : 0 < Spec.alignMember m := by
+  obtain ⟨n, t, k⟩ := m
+  have := Spec.alignTy_pos t
+  unfold Spec.alignMember
+  cases k <;> simp [Member.kind, Member.ty, Spec.flagSize] <;> omega
+
+theorem Spec.alignMember_le_alignMs (n : String) (t : Ty) (k : MKind) (r : List Member) :
+    Spec.alignMember (.mk n t k) ≤ Spec.alignMs (.mk n t k :: r) := by
+  simp only [Spec.alignMs, Spec.alignMember, Member.kind, Member.ty]
+  cases k <;> simp <;> omega
+
+namespace Py
+
+/-- the loop of get_padded_sizes as "final offset": off + Σ sizes + paddings -/
+def finalOffset (fs : List St) (sa off : Nat) : Nat := off + sumSizes fs + paddings fs sa off
+
+theorem finalOffset_nil (sa off : Nat) : finalOffset [] sa off = off := by simp [finalOffset, sumSizes, paddings]
+
+theorem finalOffset_single (f : St) (sa off : Nat) :
+    finalOffset [f] sa off = alignUp (off + f.size) sa := by
+  simp [finalOffset, sumSizes, paddings, alignUp]
+
+theorem finalOffset_cons (f g : St) (r : List St) (sa off : Nat) :
+    finalOffset (f :: g :: r) sa off = finalOffset (g :: r) sa (alignUp (off + f.size) g.align) := by
+  simp only [finalOffset, sumSizes, paddings, alignUp]; omega
+
+end Py
+end Prophy
+
+namespace Prophy
+open Prophy
+
+/-! ### fixed types are not dynamic -/
+theorem Spec.fixedMs_cons (n : String) (t : Ty) (k : MKind) (r : List Member) :
+    Spec.fixedMs (.mk n t k :: r) = true ↔ k.isStatic = true ∧ Spec.fixedTy t = true ∧ Spec.fixedMs r = true := by
+  simp [Spec.fixedMs, and_assoc]
+
+mutual
+  theorem Spec.dynTy_of_fixed : (t : Ty) → Spec.fixedTy t = true → Spec.dynTy t = false
+    | .prim _, _ => rfl
+    | .byte, _ => rfl
+    | .enum _ _, _ => rfl
+    | .union _ _, _ => rfl
+    | .struct _ ms, h => by
+      simp only [Spec.dynTy]
+      exact Spec.dynMs_of_fixed ms (by simpa [Spec.fixedTy] using h)
+  theorem Spec.dynMs_of_fixed : (ms : List Member) → Spec.fixedMs ms = true → Spec.dynMs ms = false
+    | [], _ => rfl
+    | .mk _ t k :: r, h => by
+      obtain ⟨hk, ht', hr'⟩ := (Spec.fixedMs_cons _ t k r).1 h
+      have hr := Spec.dynMs_of_fixed r hr'
+      have ht := Spec.dynTy_of_fixed t ht'
+      simp only [Spec.dynMs, hr, Bool.or_false]
+      cases k <;> simp_all [MKind.isStatic]
+end
+
+theorem Spec.endsBlock_of_fixed (n : String) (t : Ty) (k : MKind) (r : List Member)
+    (h : Spec.fixedMs (.mk n t k :: r) = true) : Spec.endsBlock (.mk n t k) = false := by
+  obtain ⟨hk, ht', _⟩ := (Spec.fixedMs_cons n t k r).1 h
+  have ht := Spec.dynTy_of_fixed t ht'
+  unfold Spec.endsBlock
+  cases k <;> simp_all [Member.kind, Member.ty, MKind.isStatic]
+
+/-- the slot a member occupies in the static layout -/
+def Spec.slot (t : Ty) : MKind → Nat
+  | .plain => Spec.sizeTy t
+  | .optional => max Spec.flagSize (Spec.alignTy t) + Spec.sizeTy t
+  | .fixed c => c * Spec.sizeTy t
+  | .limited _ c => c * Spec.sizeTy t
+  | .dyn _ => 0
+  | .greedy => 0
+
+theorem Spec.endMs_cons (n : String) (t : Ty) (k : MKind) (r : List Member) (off : Nat) (ad : Bool) :
+    Spec.endMs (.mk n t k :: r) off ad =
+      Spec.endMs r (alignUp off (if ad then Spec.blockAlign (.mk n t k :: r) else Spec.alignMember (.mk n t k)) + Spec.slot t k)
+        (Spec.endsBlock (.mk n t k)) := by
+  simp only [Spec.endMs, Spec.slot]
+  cases k <;> rfl
+
+theorem Spec.endMs_alignUp (m : Member) (r : List Member) (x : Nat) :
+    Spec.endMs (m :: r) (alignUp x (Spec.alignMember m)) false = Spec.endMs (m :: r) x false := by
+  obtain ⟨n, t, k⟩ := m
+  rw [Spec.endMs_cons, Spec.endMs_cons]
+  simp only [Bool.false_eq_true, if_false]
+  rw [alignUp_idem _ _ (Spec.alignMember_pos _)]
+
+namespace Py
+
+theorem fieldSt_size (s : St) (k : MKind) :
+    (fieldSt s k).size = match k with
+      | .plain => s.size
+      | .optional => max flagSize s.align + s.size
+      | .fixed c => c * s.size
+      | .limited _ c => c * s.size
+      | .dyn _ => 0
+      | .greedy => 0 := by
+  cases k <;> rfl
+
+theorem fieldSt_align_member (n : String) (t : Ty) (k : MKind) :
+    (fieldSt (stTy t) k).align = Spec.alignMember (.mk n t k) := by
+  rw [fieldSt_align, stTy_align]
+  unfold Spec.alignMember
+  cases k <;> simp [Member.kind, Member.ty, flagSize, Spec.flagSize]
+
+mutual
+  /-- `_SIZE` of a generated class of fixed type is the documented static size -/
+  theorem stTy_size_fixed : (t : Ty) → Spec.fixedTy t = true → (stTy t).size = Spec.sizeTy t
+    | .prim _, _ => rfl
+    | .byte, _ => rfl
+    | .enum _ _, _ => rfl
+    | .struct _ ms, h => by
+      have hf : Spec.fixedMs ms = true := by simpa [Spec.fixedTy] using h
+      simp only [stTy, structSt, Spec.sizeTy]
+      rw [stMs_align]
+      cases ms with
+      | nil => simp [stMs, sumSizes, paddings, Spec.endMs, alignUp, padTo, Spec.alignMs]
+      | cons m r =>
+        have := stMs_layout (m :: r) hf (Spec.alignMs (m :: r)) 0 (by intro _ _ _; exact Nat.dvd_zero _) (by simp)
+        simpa [finalOffset] using this
+    | .union _ arms, h => by
+      have hf : Spec.fixedArms arms = true := by simpa [Spec.fixedTy] using h
+      simp only [stTy, unionSt, Spec.sizeTy, alignUp]
+      rw [stArms_align, stArms_maxSize arms hf]
+      simp [flagSize, Spec.flagSize]
+  /-- the loop of get_padded_sizes reaches the documented end offset -/
+  theorem stMs_layout : (ms : List Member) → Spec.fixedMs ms = true →
+      ∀ (sa off : Nat), (∀ m r, ms = m :: r → Spec.alignMember m ∣ off) → ms ≠ [] →
+      finalOffset (stMs ms) sa off = alignUp (Spec.endMs ms off false) sa
+    | [], _, _, _, _, hne => absurd rfl hne
+    | [.mk n t k], hf, sa, off, hd, _ => by
+      have hd := hd _ _ rfl
+      obtain ⟨hk, ht, _⟩ := (Spec.fixedMs_cons n t k []).1 hf
+      have hs := stTy_size_fixed t ht
+      have ha := stTy_align t
+      simp only [stMs, finalOffset_single]
+      rw [Spec.endMs_cons]
+      simp only [Bool.false_eq_true, if_false, Spec.endMs]
+      rw [alignUp_of_dvd off _ hd, fieldSt_size]
+      cases k <;> simp_all [Spec.slot, flagSize, Spec.flagSize, MKind.isStatic]
+    | .mk n t k :: .mk n' t' k' :: r', hf, sa, off, hd, _ => by
+      have hd := hd _ _ rfl
+      obtain ⟨hk, ht, hf'⟩ := (Spec.fixedMs_cons n t k (.mk n' t' k' :: r')).1 hf
+      have hs := stTy_size_fixed t ht
+      have ha := stTy_align t
+      have hstep : stMs (.mk n t k :: .mk n' t' k' :: r') =
+          fieldSt (stTy t) k :: fieldSt (stTy t') k' :: stMs r' := by simp [stMs]
+      rw [hstep, finalOffset_cons, fieldSt_align_member n' t' k']
+      have ih := stMs_layout (.mk n' t' k' :: r') hf' sa
+        (alignUp (off + (fieldSt (stTy t) k).size) (Spec.alignMember (.mk n' t' k')))
+        (by intro m r h; injection h with h1 h2; subst h1; exact dvd_alignUp _ _ (Spec.alignMember_pos _))
+        (by simp)
+      have hstep' : fieldSt (stTy t') k' :: stMs r' = stMs (.mk n' t' k' :: r') := by simp [stMs]
+      rw [hstep', ih, Spec.endMs_alignUp]
+      rw [Spec.endMs_cons n t k]
+      simp only [Bool.false_eq_true, if_false]
+      rw [alignUp_of_dvd off _ hd, Spec.endsBlock_of_fixed n t k _ hf]
+      have hsz : (fieldSt (stTy t) k).size = Spec.slot t k := by
+        rw [fieldSt_size]
+        cases k <;> simp_all [Spec.slot, flagSize, Spec.flagSize, MKind.isStatic]
+      rw [hsz]
+  theorem stArms_maxSize : (arms : List Arm) → Spec.fixedArms arms = true → maxSize (stArms arms) = Spec.maxArm arms
+    | [], _ => rfl
+    | .mk _ _ t :: r, h => by
+      have h' : Spec.fixedTy t = true ∧ Spec.fixedArms r = true := by simpa [Spec.fixedArms] using h
+      simp only [stArms, maxSize, Spec.maxArm]
+      rw [stTy_size_fixed t h'.1, stArms_maxSize r h'.2]
+end
+
+end Py
+end Prophy
